@@ -16,6 +16,7 @@ import random
 
 from .. import common, harness, ir
 from ..common import Report, AnalysisBroken, Witness
+from ..harness import Harness
 from . import c13, c14, relayout
 
 
@@ -27,6 +28,7 @@ def declare(rep):
     rep.rule("C05.c", "converted field reports the source's extents; element count has the form the destination layout requires", floor=8)
     rep.rule("C05.d", "copy is driven by nd_map over the source's full extent vector", floor=8)
     rep.rule("C05.e", "conversion does not write through the source", floor=8)
+    rep.rule("C05.f", "whole-stack conversion through the wrapper layers: transform and extents reported by the result are the source's; storage is a fresh buffer", floor=6)
     rep.rule("C05.cuda", "CUDA device array conversion (not buildable here): recorded finding", floor=1)
 
 
@@ -246,6 +248,80 @@ def run_conversions(rep, tier, hs=None):
     return hs
 
 
+# ---- whole-stack conversions through the wrapper layers' pass-through constructors ---------------------------
+def h_stack(i1, i2, l1, l2, N=3, T="float", M=3):
+    lay = {"strided": "strided<verif::vd<std::size_t, %d>, array<verif::vd<%s, %d>>>" % (N, T, M),
+           "morton": "morton<verif::vd<std::size_t, %d>, array<verif::vd<%s, %d>>, false>" % (N, T, M)}
+    X = "affine<%s<%s>>" % (i1, lay[l1])
+    Y = "affine<%s<%s>>" % (i2, lay[l2])
+    reads = []
+    k = 0
+    for i in range(N):
+        for j in range(N + 1):
+            reads.append("out[%d] = y.get_configuration()(%d, %d); out[%d] = x.get_configuration()(%d, %d);" % (2 * k, i, j, 2 * k + 1, i, j))
+            k += 1
+    for d in range(N):
+        reads.append("out[%d] = static_cast<float>(y.get_backend().get_backend().get_configuration()[%d]); out[%d] = static_cast<float>(x.get_backend().get_backend().get_configuration()[%d]);" % (2 * k, d, 2 * k + 1, d))
+        k += 1
+    body = """
+  using X = %s;
+  using Y = %s;
+  const X::owning_data_t & x = *static_cast<const X::owning_data_t *>(a0);
+  Y::owning_data_t y(x);
+  %s
+  return reinterpret_cast<std::size_t>(y.get_backend().get_backend().get_backend().m_ptr.get()) == reinterpret_cast<std::size_t>(x.get_backend().get_backend().get_backend().m_ptr.get());
+""" % (X, Y, "\n  ".join(reads))
+    return Harness("stack_%s_%s_to_%s_%s" % (i1[:2], l1, i2[:2], l2), [("const void *", 'src')], body, out=("float", 2 * k), ret="bool",
+                   meta={"i1": i1, "i2": i2, "l1": l1, "l2": l2, "N": N, "pairs": k})
+
+
+def from_new(t, news):
+    found = []
+    ir.walk(('x', t), lambda x: found.append(x) if x[0] == 'ret' and len(x) == 2 and x[1] in news else None)
+    return bool(found)
+
+
+def run_stacks(rep, tier):
+    inc = relayout.includes([3])
+    hs = []
+    for i1 in ("nearest_neighbour", "linear"):
+        for i2 in ("nearest_neighbour", "linear"):
+            for l1, l2 in (("strided", "strided"), ("strided", "morton"), ("morton", "strided")):
+                if i1 == i2 and l1 == l2:
+                    continue
+                hs.append(h_stack(i1, i2, l1, l2))
+    harness.build(hs, "c05stack", includes=inc, per_tu=2)
+    for h in hs:
+        m = h.meta
+        inst = "affine<%s<%s>> -> affine<%s<%s>>" % (m["i1"], m["l1"], m["i2"], m["l2"])
+        file = "lib/core/covfie/core/backend/transformer/affine.hpp"
+        if h.error:
+            loc, msg = harness.first_error(h)
+            rep.fail("C05.f", inst, loc, "whole-stack conversion does not compile: " + msg)
+            continue
+        s = ir.Sym(h.func)
+        outs = {k: ir.ungate(v) for k, v in s.outputs(h.out_index).items()}
+        why = None
+        for k in range(m["pairs"]):
+            a, b = outs.get(8 * k), outs.get(8 * k + 4)
+            if a is None or b is None or a != b or not any(x[0] == 'ld' and x[1] == ('arg', 0) for x in ir.atoms(a)):
+                what = "transform entry %d" % k if k < m["N"] * (m["N"] + 1) else "extent %d" % (k - m["N"] * (m["N"] + 1))
+                why = "%s of the converted stack is %s, the source reports %s" % (what, ir.show(a)[:60] if a else "unset", ir.show(b)[:60] if b else "unset")
+                break
+        if why is None:
+            r = s.retval()
+            news = [c for c in s.calls if c.name == "_Znam"]
+            if not news:
+                why = "the converted stack does not allocate its own storage (it aliases or drops the source's buffer)"
+            elif r is not None and ir.ungate(r) not in (ir.FALSE, ('ci', 0, 1), ('ci', 0, 8)) and not (ir.ungate(r)[0] == 'cmp' and any(from_new(a, {c.n for c in news}) for a in (ir.ungate(r)[2], ir.ungate(r)[3]))):
+                why = "the converted stack's buffer may be the source's buffer (%s)" % ir.show(r)[:80]
+        if why:
+            rep.fail("C05.f", inst, file, why)
+        else:
+            rep.ok("C05.f", inst)
+    return hs
+
+
 def subterms(t):
     out = []
     ir.walk(t, lambda x: out.append(x))
@@ -296,6 +372,7 @@ def run(rep, tier):
         else:
             rep.fail("C05.a", w.meta["cid"], c13.locate(w, "lib/core/covfie/core/field.hpp"), "conversion does not compile: " + w.detail)
     hs = run_conversions(rep, tier)
+    run_stacks(rep, tier)
     cuda_scan(rep)
     return hs
 
